@@ -25,3 +25,22 @@ Definition run (check : bool) (files : list (path * outcome)) (f : fs) : fs * na
   (fold_left (write check) files f, fold_right Nat.max 0 (map (fun po => level check (snd po)) files)).
 End Cli.
 Arguments Formatted {content}. Arguments Unformatted {content}. Arguments Failed {content}.
+
+(* stdin mode (C17): what `stylua -` prints and returns.  [lib] is the library's verdict on the text read from stdin. *)
+Section Stdin.
+Variable content : Type.
+Inductive verdict := Ok_ (formatted : content) | ParseFail.
+Record stdin_result := { out : option content; status : nat; wrote : bool }.
+(* skip = --respect-ignores and --stdin-filepath names an ignored path; check = --check *)
+Definition stdin_run (input : content) (lib : verdict) (skip check : bool) (same : content -> content -> bool) : stdin_result :=
+  if skip then
+    (* the text is passed through (in check mode: compared with itself, so no diff) *)
+    {| out := if check then None else Some input; status := 0; wrote := false |}
+  else match lib with
+       | ParseFail => {| out := None; status := 2; wrote := false |}
+       | Ok_ f => if check then {| out := None (* a diff goes to stdout instead, judged by C18 *);
+                                   status := if same input f then 0 else 1; wrote := false |}
+                  else {| out := Some f; status := 0; wrote := false |}
+       end.
+End Stdin.
+Arguments Ok_ {content}. Arguments ParseFail {content}.
